@@ -37,10 +37,12 @@ cfg = {
         {'filter': 'request.target.port == 1005', 'target': 'hdown'},
         {'filter': 'request.target.port == 1006', 'target': 's5down'},
         {'filter': 'request.target.port == 1007', 'target': 'direct'},
+        {'filter': 'request.target.port == 0', 'target': 'direct'},
         {'filter': 'request.target.host == "127.0.0.1" || request.target.host == "::1"', 'target': 'direct'},
     ],
     'metrics': {'bind': f'127.0.0.1:{ap}', 'ui': None},
     'ioParams': {'bufferSize': 4096, 'useSplice': True},
+    'timeouts': {'idle': 600, 'udp': 1},
 }
 px = Proxy(cfg, 'c06')
 px.api_port = ap
@@ -217,6 +219,44 @@ def s4auth():
     return 'failure', (None if len(r) == 8 and not extra else f'reply {r.hex()} + {extra.hex()}'), how in ('eof', 'reset'), r
 special('socks4-auth-required-unknown-id', s4auth, True)
 
+# ---- a session that was told 'established' and ends later (idle timeout, relay error) must not get a second reply:
+#      UDP associations keep their control connection open while they relay
+def after_success(name, opener, success_len):
+    global evals
+    evals += 1
+    try:
+        s, first = opener()
+    except OSError as e:
+        machinery(f'{name}: {e!r}')
+    if first is None:
+        chk.violation('reply.iff', f'udp-session-refused:{name}', f'{name}: not established', {'case': name})
+        return
+    extra, how = recv_until_eof(s, 4)
+    s.close()
+    distinct.add((name, 'extra' if extra else 'clean', how))
+    if extra:
+        chk.violation('reply.once', f'second-reply-after-success:{name}', f'{name}: after the success reply {first.hex()[:40]} the session ended ({how}) and the client was sent {extra[:60]!r}', {'case': name, 'first': first.hex(), 'then': extra.hex()})
+    elif how not in ('eof', 'reset'):
+        chk.violation('reply.close', f'control-connection-left-open:{name}', f'{name}: udp idle timeout is 1 s, the control connection is still open after 4 s', {'case': name})
+
+def assoc_idle():
+    s, r = socks5_connect(sp, '0.0.0.0', 0, cmd=3, timeout=5)
+    return s, (r['reply'] if r['rep'] == 0 else None)
+def assoc_used_then_idle():
+    s, r = socks5_connect(sp, '0.0.0.0', 0, cmd=3, timeout=5)
+    if r['rep'] != 0:
+        return s, None
+    u = socket.socket(socket.AF_INET, socket.SOCK_DGRAM)
+    u.sendto(b'\0\0\0' + socks5_addr('127.0.0.1', closed_port) + b'ping', ('127.0.0.1', struct.unpack('>H', r['reply'][8:10])[0]))
+    u.close()
+    return s, r['reply']
+def http_udp_idle():
+    s, code, head, rest = http_connect(hp, '127.0.0.1:9', extra_headers=b'Proxy-Protocol: udp\r\n', timeout=5)
+    return s, (head if code == 200 else None)
+after_success('socks5-udp-associate-idle-timeout', assoc_idle, 10)
+after_success('socks5-udp-associate-datagram-to-closed-port-then-idle', assoc_used_then_idle, 10)
+after_success('http-udp-inline-idle-timeout', http_udp_idle, 0)
+
 alive = px.alive()
 if not alive:
     chk.violation('process', 'proxy-died', f'proxy exited with {px.returncode()}: {px.log()[-400:]}', {})
@@ -226,6 +266,6 @@ for o in (echo4, echo6, uph, ups):
 if evals < 50 or len(distinct) < 6:
     machinery(f'vacuous: evals={evals} distinct={len(distinct)}')
 cov = {'evaluations': evals, 'distinct_nontrivial': len(distinct), 'transitions': evals, 'traces_validated_against_impl': evals,
-       'rule': 'real binary: client protocol {http, socks5, socks4/4a} x 33 routes (direct v4/v6/refused; an http upstream that refuses with 1..40000 bytes of explanation in its headers; http, socks5, socks4 upstreams behaving ok / saying no / closing mid-handshake / sending garbage; denied; no rule; upstream port closed) + BIND, unknown command, UDP not allowed, 3 authentication failures; reply parsed strictly, echo round trip decides whether the tunnel really works',
+       'rule': 'real binary: client protocol {http, socks5, socks4/4a} x 33 routes (direct v4/v6/refused; an http upstream that refuses with 1..40000 bytes of explanation in its headers; http, socks5, socks4 upstreams behaving ok / saying no / closing mid-handshake / sending garbage; denied; no rule; upstream port closed) + BIND, unknown command, UDP not allowed, 3 authentication failures; UDP sessions (socks5 associate idle / after a datagram to a closed port, http inline) ending by idle timeout after their success reply must get nothing more; reply parsed strictly, echo round trip decides whether the tunnel really works',
        'clients': CLIENTS, 'routes': len(ROUTES), 'schedule_control': 'kernel', 'samples': samples}
 sys.exit(chk.finish('model_checking', cov, ['E4 part: fake upstream proxies in Python decide their behaviour from the requested host name']))
